@@ -71,6 +71,8 @@ def build_case(case):
         e2["unique_id"] = eng["unique_id"] + 1
         e2["targets"], e2["sensors"] = eng["targets"][1:], eng["sensors"][1:]
         eng["targets"], eng["sensors"] = eng["targets"][:1], eng["sensors"][:1]
+        if case.get("engine_ids"):          # e.g. an engine whose unique id is 0 (a falsy id must still be an id)
+            eng["unique_id"], e2["unique_id"] = case["engine_ids"]
         cfg["engines"] = [eng, e2]
     t0 = su.parse_iso(case["start"])
     engines = cfg["engines"]
@@ -232,6 +234,13 @@ def make_cases(ctx: Ctx, rng):
             add(start, step, [{"kind": "priority", "t0": a * step, "t1": b * step, "engine": 1}], two_engines=True)
             add(start, step, [{"kind": "priority", "t0": (a - 1) * step + 1, "t1": b * step, "engine": 0}], two_engines=True,
                 random_schedule=True)
+            # one of the two engines has the unique id 0: the other engine's priority must not reach it, its own must
+            if not ctx.quick or (si + step) % 2 == 0:
+                add(start, step, [{"kind": "priority", "t0": a * step, "t1": b * step, "engine": 1}], two_engines=True,
+                    engine_ids=[0, 5])
+                add(start, step, [{"kind": "priority", "t0": (a - 1) * step + 1, "t1": b * step, "engine": 0},
+                                  {"kind": "priority", "t0": a * step, "t1": (n + 1) * step, "engine": 1}], two_engines=True,
+                    engine_ids=[7, 0])
             add(start, step, [{"kind": "bias", "t0": a * step, "t1": b * step, "sensor": 0}])
             add(start, step, [{"kind": "bias", "t0": (a - 1) * step + 1, "t1": (n + 2) * step, "sensor": 1},
                               {"kind": "burn", "t0": a * step, "t1": b * step, "planned": True}])
